@@ -205,11 +205,22 @@ def findings_for(prop_id):
 
 
 def quarantine_for(prop_id):
+    """Generator exclusions of the open findings: inline `quarantine` items of known_findings.json plus the
+    committed table quarantine/<ID>.json (one row per (gap label, trivia family) pair, each naming its finding)."""
     q = []
+    open_ids = set()
     for f, entry in findings_for(prop_id):
         if f.get("status") == "open":
+            open_ids.add(f["id"])
             for item in entry.get("quarantine", []):
                 q.append(dict(item, finding=f["id"]))
+    table = os.path.join(ROOT, "quarantine", f"{prop_id}.json")
+    if os.path.exists(table):
+        with open(table) as fh:
+            doc = json.load(fh)
+        for row in doc.get("entries", []):
+            if row.get("finding") in open_ids:
+                q.append({"label": re.escape(row["label"]), "families": [row["family"]], "finding": row["finding"]})
     return q
 
 
